@@ -370,8 +370,11 @@ func (m *Match) populateOtherGroups() {
 	// Construct all the Group objects first time called
 	if m.otherGroups == nil {
 		m.otherGroups = make([]Group, len(m.matchcount)-1)
+		// i+1 is the group's slot index; with sparse (explicitly numbered) groups that is
+		// not its number, so translate it before looking up the name
+		nums := m.regex.GetGroupNumbers()
 		for i := 0; i < len(m.otherGroups); i++ {
-			m.otherGroups[i] = newGroup(m.regex.GroupNameFromNumber(i+1), m.text, m.matches[i+1], m.matchcount[i+1])
+			m.otherGroups[i] = newGroup(m.regex.GroupNameFromNumber(nums[i+1]), m.text, m.matches[i+1], m.matchcount[i+1])
 		}
 	}
 }
